@@ -165,3 +165,10 @@ Definition py_circ_autocorr (x : list Q) (P n : nat) : Q :=
   Qsum (map (fun i => nth i x 0 * nth ((i + n) mod P) x 0)%Q (seq 0 P)).
 Definition py_fft_autocorr (x : list Q) (P : Z) : list Q :=
   map (py_circ_autocorr x (Z.to_nat P)) (seq 0 (Z.to_nat P)).
+Definition py_sum (l : list Z) : Z := fold_right Z.add 0 l.
+
+(* a[lo:hi] = v on a numpy array: the lengths must agree (broadcasting of a single value is not modelled) *)
+Definition py_slice_set (l : list Q) (lo hi : Z) (v : list Q) : res (list Q) :=
+  let n := zlen l in let a := clip_index n lo in let b := clip_index n hi in
+  if Nat.eqb (Z.to_nat (b - a)) (List.length v)
+  then Ok (firstn (Z.to_nat a) l ++ v ++ skipn (Z.to_nat b) l) else Raise ValueError.
